@@ -1830,3 +1830,10 @@ def slice_split_at(m, mt, args, tys, dty):
 @summary(r'core::slice::<impl \[.*\]>::len')
 def slice_len(m, mt, args, tys, dty):
     return len(as_slice(args[0]))
+
+
+@summary(r'<(%s|bool|char) as Partial(Eq|Ord)>::(eq|ne|lt|le|gt|ge)' % INT)
+def prim_cmp_ops(m, mt, args, tys, dty):
+    x, y = deref(args[0]), deref(args[1])
+    op = mt.group(3)
+    return {'eq': x == y, 'ne': x != y, 'lt': x < y, 'le': x <= y, 'gt': x > y, 'ge': x >= y}[op]
